@@ -44,13 +44,57 @@ def gen_records(rng, ann, n):
     return ["\t".join(rng.choice(["", "a", "1", "x y", " lead", "é", "#x", "7;8", "-", "None"]) for _ in names) for _ in range(n)]
 
 
-def write_file(channel, header_lines, recs, scheme, names, mode, tmp):
+def api_touch(rec, rng):
+    """Replace the value of some list-valued columns by lists built directly from element values
+    (trailing / leading / inner null members, single elements), as the API allows."""
+    import maflib.column_types as CT
+    for col in list(rec.values()):
+        if col is None or not isinstance(col, CT.SequenceOfValuesColumn) or rng.random() < 0.5:
+            continue
+        ecls = col.__column_class__()
+        if issubclass(ecls, CT.EnumColumn):
+            members = list(ecls.__enum_class__())
+            vals = [rng.choice(members) for _ in range(rng.randrange(1, 4))]
+            if rng.random() < 0.5 and hasattr(ecls.__enum_class__(), "Null"):
+                vals.append(ecls.__enum_class__().Null)
+            if len(vals) == 1 and str(vals[0]) == "":
+                continue      # the known finding (C04): [Null] has no spelling
+        elif issubclass(ecls, CT.IntegerColumn):
+            vals = [rng.randrange(-5, 50) for _ in range(rng.randrange(1, 4))]
+        else:
+            vals = [rng.choice(["a", "b c", "x.y", "7"]) for _ in range(rng.randrange(1, 4))]
+        col.value = vals
+    return rec
+
+
+def derived_header(rng, ann):
+    """A header obtained from a reader of a *protected* file and edited in place to name another layout."""
+    from maflib.header import MafHeader, MafHeaderAnnotationSpecRecord
+    from maflib.reader import MafReader
+    src = {"gdc-1.0.0-public": "gdc-1.0.0-protected", "gdc-2.0.0-aliquot-merged-masked": "gdc-2.0.0-aliquot-merged"}.get(ann)
+    if not src:
+        return None
+    names = impl.scheme_by_annotation(src).column_names()
+    reader = MafReader(lines=["#version gdc-1.0.0", "#annotation.spec " + src, "#center x", "\t".join(names)])
+    reader.header().validate()
+    h = MafHeader.from_reader(reader)
+    h.validate()
+    how = rng.choice(["inplace", "setitem"])
+    if how == "inplace":
+        h["annotation.spec"].value = ann
+    else:
+        h["annotation.spec"] = MafHeaderAnnotationSpecRecord(value=ann)
+    return h, ["#version gdc-1.0.0", "#annotation.spec " + ann, "#center x"], how
+
+
+def write_file(channel, header_lines, recs, scheme, names, mode, tmp, header_obj=None, touch=None):
     from maflib.header import MafHeader
     from maflib.record import MafRecord
     from maflib.validation import ValidationStringency as VS
     from maflib.writer import MafWriter
-    h = MafHeader.from_lines(header_lines, validation_stringency=VS.Silent)
+    h = header_obj if header_obj is not None else MafHeader.from_lines(header_lines, validation_stringency=VS.Silent)
     path = os.path.join(tmp, "f.maf" + (".gz" if channel == "gz" else ""))
+    written = []
     if channel == "handle":
         buf = io.StringIO()
         keep = {}
@@ -61,8 +105,12 @@ def write_file(channel, header_lines, recs, scheme, names, mode, tmp):
         w = MafWriter.from_path(path, h, validation_stringency=mode)
     for line in recs:
         rec = MafRecord.from_line(line, scheme=scheme, column_names=names, validation_stringency=VS.Silent)
+        if touch is not None:
+            rec = api_touch(rec, touch)
+        written.append((str(rec), [enc_val(v) for v in rec.column_values()]))
         w += rec
     w.close()
+    write_file.last_written = written
     if channel == "handle":
         return keep["text"], None
     if channel == "gz":
@@ -97,17 +145,34 @@ def run(ctx):
     reqs = []
     with tempfile.TemporaryDirectory() as tmp:
         for _ in range(ctx.scale(150, 2500)):
-            ann = rng.choice([None, "gdc-1.0.0", "gdc-1.0.0-public", "gdc-2.0.0-aliquot-merged-masked", "gdc-1.0.0-genie"])
+            ann = rng.choice([None, "gdc-1.0.0", "gdc-1.0.0-public", "gdc-1.0.0-public", "gdc-2.0.0-aliquot-merged-masked", "gdc-1.0.0-genie"])
             header_lines = gen_header(rng, ann)
-            recs = gen_records(rng, ann, rng.randrange(0, 5))
             scheme = impl.scheme_by_annotation(ann) if ann else None
             names = None if ann else ["Hugo_Symbol", "Chromosome", "Start_Position", "End_Position", "c5", "c6"]
+            # the records offered to the writer: parsed from generated lines; their text is what must come back
+            from maflib.record import MafRecord as _MR
+            recs = [str(_MR.from_line(l, scheme=scheme, column_names=names, validation_stringency=VS.Silent))
+                    for l in gen_records(rng, ann, rng.randrange(0, 5))]
             mode = VS.Strict if ann else VS.Silent
             channel = rng.choice(CHANNELS)
             out.evaluations += 1
             where = {"header": header_lines, "scheme": ann, "records": [r[:120] for r in recs], "channel": channel}
+            hobj, how = None, None
+            if ann in ("gdc-1.0.0-public", "gdc-2.0.0-aliquot-merged-masked") and rng.random() < 0.5:
+                dh = derived_header(rng, ann)
+                if rng.random() < 0.5:
+                    recs = []          # a header-only file
+                if dh:
+                    hobj, header_lines, how = dh
+                    where["header"] = header_lines
+                    where["header_source"] = "from_reader + %s edit of annotation.spec" % how
+            touch = rng if (ann and rng.random() < 0.4) else None
             try:
-                text, path = write_file(channel, header_lines, recs, scheme, names, mode, tmp)
+                text, path = write_file(channel, header_lines, recs, scheme, names, mode, tmp, header_obj=hobj, touch=touch)
+                if touch is not None:
+                    recs = [t for t, _v in write_file.last_written]
+                    where["records"] = [r[:120] for r in recs]
+                    where["api_values"] = True
             except Exception as e:  # noqa
                 # not accepted by the writer: outside the property (must be the format exception though)
                 if not exc_name(e).startswith("MafFormatException"):
@@ -131,9 +196,7 @@ def run(ctx):
                                          expected=recs, got=[str(r) for r in got]))
             elif scheme:
                 from maflib.record import MafRecord
-                for line, r in zip(recs, got):
-                    r0 = MafRecord.from_line(line, scheme=scheme, validation_stringency=VS.Silent)
-                    a = [enc_val(v) for v in r0.column_values()]
+                for (line, a), r in zip(write_file.last_written, got):
                     b = [enc_val(v) for v in r.column_values()]
                     if any(not py_eq(x, y) and not (x.get("t") == "float" and x["v"] == "nan") for x, y in zip(a, b)):
                         out.failures.append(dict(where, what="typed values differ after the round trip", kind="values"))
